@@ -25,7 +25,7 @@ META = {
         "e, J, Omega are taken from the edges themselves (C01/C02 own them); numpy dense solve/cond trusted",
         "tolerance 1e-9 x (1 + |dx| + translation scale) x max(1, cond/1e3)",
     ],
-    "required_classes": ["iterations_inside_one_call", "large_graph", "far_apart", "shared_pose_object", "weak_information", "history", "parallel_edges", "edge_high_index_first", "mixed_dimensions", "two_or_more_fixed", "custom_unary", "custom_ternary", "ffp_true", "ffp_false", "ids_special", "edge_order_permuted", "isolated_fixed_vertex"],
+    "required_classes": ["information_reassigned", "iterations_inside_one_call", "large_graph", "far_apart", "shared_pose_object", "weak_information", "history", "parallel_edges", "edge_high_index_first", "mixed_dimensions", "two_or_more_fixed", "custom_unary", "custom_ternary", "ffp_true", "ffp_false", "ids_special", "edge_order_permuted", "isolated_fixed_vertex"],
     "bounds": {"quick": "n=2: m<=3; n=3: m<=2, vertex orders {identity, reversed, rotated}", "thorough": "n=2: m<=4; n=3: m<=3, all 6 vertex orders"},
 }
 
@@ -63,6 +63,16 @@ def large_specs(tier, seed):
         vs = [{"id": i, "kind": kind, "pose": F.vertex_pose(kind, i, seed), "fixed": i == 2} for i in range(6)]
         es = [{"type": "odo", "ids": ([0, j] if j % 2 else [j, 0]), "z": F._meas(kind, j, seed), "om": A.spd(c, seed, "hb%d" % j)} for j in range(1, 6)]
         out.append(("hub-" + kind, {"vertices": vs, "edges": es}))
+    # dead-reckoned chains: every odometry measurement agrees EXACTLY (dyadic numbers) with the initial guess, one loop closure disagrees;
+    # the interior vertices have an exactly zero gradient block and still have to move
+    for kind in ("R2", "SE2"):
+        c = I.COMPACT[kind]
+        n = 6
+        step = [0.5, 0.25] + ([0.0] if kind == "SE2" else [])
+        vs = [{"id": i, "kind": kind, "pose": [0.5 * i, 0.25 * i] + ([0.0] if kind == "SE2" else []), "fixed": i == 0} for i in range(n)]
+        es = [{"type": "odo", "ids": [i, i + 1], "z": list(step), "om": A.spd(c, seed, "ex%d" % (i % 3))} for i in range(n - 1)]
+        es.append({"type": "odo", "ids": [0, n - 1], "z": [2.0, 1.5] + ([0.125] if kind == "SE2" else []), "om": A.spd(c, seed, "exl")})
+        out.append(("exact-chain-" + kind, {"vertices": vs, "edges": es}))
     for kind in ("R2", "R3"):
         c = I.COMPACT[kind]
         n = 33
@@ -107,6 +117,8 @@ def run_chunk(chunk, tier, seed):
         for vo in ("as_listed", "reversed", "interleaved"):
             for ffp in (False, True):
                 _do(acc, {"large": name, "tier": tier, "seed": seed, "vorder": vo, "ffp": ffp, "types": None, "edges": None, "fixed": None, "eorder": None, "ids": None})
+        # the caller re-assigns every edge's information matrix after construction (re-weighting): the step uses the CURRENT matrices
+        _do(acc, {"large": name, "tier": tier, "seed": seed, "vorder": "as_listed", "ffp": False, "types": None, "edges": None, "fixed": None, "eorder": None, "ids": None, "reweight": True})
         # EACH iteration of one optimize(tol=0, max_iter=k) call is the exact step (also the late ones, close to convergence)
         if nv <= 17:
             for k in (2, 3, 5, 8):
@@ -312,6 +324,10 @@ def _eval_inner(case):
             v["pose"] = list(p0)
     g, verts, edges = GB.build(spec)
     pre = []
+    if case.get("reweight"):
+        for k, e in enumerate(edges):
+            e.information = (0.25 + 0.5 * (k % 4)) * np.array(e.information, dtype=float, copy=True) + 0.125 * np.eye(np.asarray(e.information).shape[0])
+        pre = ["information_reassigned"]
     if case.get("shared_pose_object"):
         shared = verts[0].pose
         for v in verts:
